@@ -331,3 +331,46 @@ func isNum(s string) bool {
 	}
 	return len(s) > 0
 }
+
+// MapsKeys, MapsValues and MapsAll stand in for maps.Keys / maps.Values /
+// maps.All (iterators over a map in runtime order): same seeded order as Keys.
+func MapsKeys[K comparable, V any](m map[K]V, site string) func(yield func(K) bool) {
+	return func(yield func(K) bool) {
+		for _, k := range Keys(m, site) {
+			if _, ok := m[k]; !ok {
+				continue
+			}
+			if !yield(k) {
+				return
+			}
+		}
+	}
+}
+
+func MapsValues[K comparable, V any](m map[K]V, site string) func(yield func(V) bool) {
+	return func(yield func(V) bool) {
+		for _, k := range Keys(m, site) {
+			v, ok := m[k]
+			if !ok {
+				continue
+			}
+			if !yield(v) {
+				return
+			}
+		}
+	}
+}
+
+func MapsAll[K comparable, V any](m map[K]V, site string) func(yield func(K, V) bool) {
+	return func(yield func(K, V) bool) {
+		for _, k := range Keys(m, site) {
+			v, ok := m[k]
+			if !ok {
+				continue
+			}
+			if !yield(k, v) {
+				return
+			}
+		}
+	}
+}
